@@ -269,6 +269,10 @@ func (n *vfNet) Listen(addr string) *vfListener {
 	n.mu.Lock()
 	defer n.mu.Unlock()
 	l := &vfListener{addr: addr, net: n, ch: make(chan *vfConn, 1024), done: make(chan struct{})}
+	if n.closed {
+		l.once.Do(func() { close(l.done) }) // the world is being torn down: nobody will ever close this listener
+		return l
+	}
 	n.listeners[addr] = l
 	return l
 }
@@ -308,6 +312,11 @@ func (n *vfNet) DialFrom(ctx context.Context, clientIP, addr string) (*vfConn, e
 	cli := &vfConn{rd: b2a, wr: a2b, local: ca, remote: sa, net: n}
 	srv := &vfConn{rd: a2b, wr: b2a, local: sa, remote: ca, net: n}
 	n.mu.Lock()
+	if n.closed {
+		// CloseAll ran between the check above and here: it would never see (and close) this pair
+		n.mu.Unlock()
+		return nil, errVFRefused
+	}
 	n.conns[cli] = struct{}{}
 	n.conns[srv] = struct{}{}
 	n.mu.Unlock()
